@@ -2572,7 +2572,9 @@ void abbreviation_from_bracket(const char * source, scratch_pad * scratch, token
 void read_table_column_alignments(const char * source, token * table, scratch_pad * scratch) {
 	token * walker = table->child->child;
 
-	scratch->table_alignment[0] = '\0';
+	// Rows may hold more cells than the separator line has columns -- those
+	// cells read alignment entries that this table never sets
+	memset(scratch->table_alignment, 0, sizeof(scratch->table_alignment));
 	scratch->table_column_count = 0;
 
 	if (walker == NULL) {
